@@ -9,7 +9,7 @@
 //               field content of <= 4 bytes and each of the five separators: an independent RFC 4180 field parser
 //               (harness/ref/rfc4180.h) recovers exactly the original bytes from the output, the output is one field (the whole
 //               output is consumed), and fields without separator / quote / CR / LF are written verbatim.
-//  h09k_row     CCsvStringReader (no header) on EVERY text of <= 5 bytes that is ONE conformant record by the reference parser
+//  h09k_row     CCsvStringReader (no header) on EVERY text of <= 4 bytes that is ONE conformant record by the reference parser
 //               (optional quoting, CRLF / LF / no final line break): same number of cells, same cell contents, end reached.
 #include "bitserializer/csv_archive.h"
 #define private public
@@ -38,7 +38,7 @@ VH_EXPORT int vp_h09k_escape(const unsigned char* in, unsigned char* out) {
 	if (!special) { if (o.size() != n) return 0; for (size_t i = 0; i < 4; i++) if (i < n && o[i] != v[i]) return 0; }   // verbatim
 	return 1;
 }
-static constexpr size_t TN = 5;
+static constexpr size_t TN = 4;
 // precondition of h09k_row: the text is exactly one conformant record
 static inline int ref_row(const unsigned char* in, csvref::Field* f, unsigned char* sep_out) {
 	const unsigned char sep = (unsigned char)SEPS[in[0] % 5]; size_t n = in[1] % (TN + 1); size_t pos = 0;
@@ -62,7 +62,7 @@ VH_EXPORT int vp_h09k_row(const unsigned char* in, unsigned char* out) {
 	int rc = vh::outcome([&] {
 		if (!r.ParseNextRow()) { cells = 99; return; }
 		cells = r.mRowValuesMeta.size();
-		for (size_t c = 0; c < 7; c++) if (c < cells && c < (size_t)nf) {
+		for (size_t c = 0; c < 5; c++) if (c < cells && c < (size_t)nf) {
 			std::string_view sv; r.ReadValue(sv);
 			if (sv.size() != f[c].n) same = false;
 			for (size_t i = 0; i < TN; i++) if (i < sv.size() && i < f[c].n && (unsigned char)sv[i] != f[c].b[i]) same = false;
@@ -72,7 +72,7 @@ VH_EXPORT int vp_h09k_row(const unsigned char* in, unsigned char* out) {
 	return rc == vh::OK && cells == (size_t)nf && same && r.IsEnd();
 }
 //@ OBL {"name": "h09k_escape", "prop": "vp_h09k_escape", "in": 8, "out": 16, "unwind": 12, "unwind_models": 8, "fs": 32, "cap_s": 900, "backends": ["default", "kissat"], "bounds": "every field content of length <= 4 (all byte values), separators , ; TAB SPACE |", "desc": "WriteEscapedValue: an independent RFC 4180 parser recovers the field exactly; plain fields verbatim"}
-//@ OBL {"name": "h09k_row", "prop": "vp_h09k_row", "assume": "va_h09k_row", "in": 8, "out": 16, "unwind": 9, "unwind_models": 8, "fs": 32, "cap_s": 900, "backends": ["default", "kissat"], "bounds": "every text of length 1..5 that is one RFC 4180 record (reference parser), five separators, no header", "desc": "CCsvStringReader::ParseNextRow + ReadValue == reference cells (count, contents), input consumed"}
+//@ OBL {"name": "h09k_row", "prop": "vp_h09k_row", "assume": "va_h09k_row", "in": 8, "out": 16, "unwind": 9, "unwind_models": 8, "fs": 32, "cap_s": 3600, "mem_gb": 40, "tier": "thorough", "backends": ["default", "kissat"], "bounds": "every text of length 1..4 that is one RFC 4180 record (reference parser), five separators, no header", "desc": "CCsvStringReader::ParseNextRow + ReadValue == reference cells (count, contents), input consumed"}
 //@ VEC * 0003612c62000000
 //@ VEC * 0004226122000000
 //@ VEC * 0105613b620d0a00
